@@ -176,7 +176,7 @@ fn run_minicairo_library(ctx: &mut Ctx) {
             |ctx| {
                 let mut lib = String::new();
                 for (i, c) in chunk.iter().enumerate() {
-                    let src = crate::mini::pprog(&c.prog).replace("\nfn f(", "\npub fn f(");
+                    let src = c.source().replace("\nfn f(", "\npub fn f(");
                     lib.push_str(&format!("pub mod m{i} {{\n{src}}}\n"));
                 }
                 let blob = {
